@@ -94,6 +94,14 @@ func (p *Program) replay(prop string, obls []*Obligation, opts checkOpts, dir st
 		}
 	}
 	res, cmdline, note := p.runHarness(prop, base, rf.Hints, opts)
+	for _, o := range obls {
+		if o.Kind == "bounded" && o.Failed && p.bounded != nil && p.bounded.FailInput != "" {
+			// the bounded run of the real tool carries its own failing input
+			res = map[string]interface{}{"found": true, "input": map[string]string{"target": p.bounded.FailTarget, "upstream_file": p.bounded.FailInput}, "observed": p.bounded.Failure, "expected": "generated list == non-empty input lines"}
+			cmdline = "bipverif check C17 (bounded run of update-wordlist built with -tags verif against a local server)"
+			note = ""
+		}
+	}
 	rf.ReplayCmd = cmdline
 	rf.Result = res
 	if note != "" {
